@@ -176,8 +176,12 @@ func reference(q request, late bool) ([]seen, any) {
 	if r, ok := refCache[k]; ok {
 		return r.log, r.esc
 	}
-	fw := newWorld(late)
-	log, esc := fw.serve(q)
+	var log []seen
+	var esc any
+	vsched.Free(func() {
+		fw := newWorld(late)
+		log, esc = fw.serve(q)
+	})
 	if esc != nil && strings.Contains(fmt.Sprint(esc), escapingPanic) {
 		esc = nil // the handler's own panic
 	}
